@@ -96,7 +96,7 @@ def load():
                 m = json.load(open(meta))
                 if m.get("detected_by") is None and not os.environ.get("SELFTEST_ALL_SEEDED"):
                     continue
-                recipes.append({"id": f"seeded/{d}", "props": m.get("checks", [m["property"]]), "patch": patch, "expect": m.get("expect_rule", ""), "kind": "break"})
+                recipes.append({"id": f"seeded/{d}", "props": m.get("detected_by") or [m["property"]], "patch": patch, "expect": m.get("expect_rule", ""), "kind": "break"})
     return recipes
 
 
